@@ -177,7 +177,7 @@ def strategy_chunking(ctx):
     clf = Scripted(classes=[0, 1]).fit(None, None)
     for sname, mname in combos:
         comp = sname + (f"[{mname}]" if mname else "")
-        for h in range(4 if ctx.is_quick else 40):
+        for h in range(8 if ctx.is_quick else 60):
             rng = ctx.rng("stratchunk", comp, h)
             n = int(rng.integers(20, 60))
             budget = float(rng.choice([0.1, 0.3, 0.6]))
@@ -197,6 +197,8 @@ def strategy_chunking(ctx):
                     kw["classes"] = [0, 1]
                 if mname:
                     kw["budget_manager"] = mgr(mname, budget)
+                if sname == "StreamDensityBasedAL" and h % 2 == 1:
+                    kw["window_size"] = [3, 8, 15][(h // 2) % 3]       # a sliding window that is full long before the stream ends
                 qs = cls(**kw)
                 dec, pos = [], 0
                 try:
